@@ -230,14 +230,20 @@ def meta_linear(ctx, quick):
         desc = dict(kind='meta-linear', sym=sym, how=how, perm=perm, rank=r, rep=k)
         ctx.case(desc, nontrivial=xs.size > 0)
         ctx.count('meta:' + how)
+        ro = [rng.random() < 0.4 for _ in range(4)]      # resolve_ops is an independent option of every call
+        desc['resolve_ops'] = ro
         try:
-            vx, _ = yastn.split_data_and_meta(xs.to_dict(level=0, meta=meta), squeeze=True)
-            vy, _ = yastn.split_data_and_meta(ys.to_dict(level=0, meta=meta), squeeze=True)
-            vxy, _ = yastn.split_data_and_meta((2 * xs - 3 * ys).to_dict(level=0, meta=meta), squeeze=True)
+            vx, _ = yastn.split_data_and_meta(xs.to_dict(level=0, meta=meta, resolve_ops=ro[0]), squeeze=True)
+            vy, _ = yastn.split_data_and_meta(ys.to_dict(level=0, meta=meta, resolve_ops=ro[1]), squeeze=True)
+            vxy, _ = yastn.split_data_and_meta((2 * xs - 3 * ys).to_dict(level=0, meta=meta, resolve_ops=ro[2]), squeeze=True)
         except yastn.YastnError as e:
             ctx.violation('to_dict(meta=...) rejected a tensor compatible with the meta (%s): %s' % (how, str(e)[:120]), desc)
             continue
         fam = 'to_dict-meta-with-lazy-transpose-in-meta' if how == 'meta_lazy' else None
+        if not (vx.shape == vy.shape == vxy.shape):
+            ctx.violation('to_dict(meta=..., resolve_ops=%r) gives vectors of different lengths %r for tensors serialised against one meta (%s)' % (
+                ro[:3], (vx.shape, vy.shape, vxy.shape), how), desc, family=fam)
+            continue
         if not np.array_equal(vxy, 2 * vx - 3 * vy):
             ctx.violation('to_dict(meta=...) is not linear (%s)' % how, desc, family=fam)
         if not np.isclose(np.linalg.norm(vx), xs.norm()):
@@ -255,8 +261,8 @@ def meta_linear(ctx, quick):
             extra = any(t not in dict(zip(l.t, l.D)) for o, l in zip(zl, legs) for t in o.t) if z.size else False
             if extra:
                 try:
-                    z.to_dict(level=0, meta=meta)
-                    ctx.violation('to_dict(meta=...) accepted a tensor with blocks outside the meta', desc)
+                    z.to_dict(level=0, meta=meta, resolve_ops=ro[3])
+                    ctx.violation('to_dict(meta=..., resolve_ops=%s) accepted a tensor with blocks outside the meta' % ro[3], desc)
                 except yastn.YastnError:
                     pass
 
